@@ -88,19 +88,27 @@ func mkTargets(r *Rng, n int, flavour int) map[string][]*target.Target {
 }
 
 type loadedInfo struct {
-	Err     string
-	Targets map[string][]*target.Target
-	Idle    bool
+	Err      string
+	Targets  map[string][]*target.Target
+	Idle     bool
+	IdleUnix int64
 }
 
 func storeLoad(dir string) loadedInfo {
+	// the restart happens later than everything that was stored
+	sidecar.VerifSetTimeNow(func() time.Time { return time.Unix(1700003600, 0).UTC() })
+	defer fixedClock()
 	tm := sidecar.NewTargetsManager(dir, prometheus.NewRegistry(), quietLog())
 	// Load() re-saves what it read; work on a copy so that the observation does not change the directory
 	if err := tm.Load(); err != nil {
 		return loadedInfo{Err: err.Error()}
 	}
 	info := tm.TargetsInfo()
-	return loadedInfo{Targets: info.Targets, Idle: info.IdleAt != nil}
+	li := loadedInfo{Targets: info.Targets, Idle: info.IdleAt != nil}
+	if info.IdleAt != nil {
+		li.IdleUnix = info.IdleAt.Unix()
+	}
+	return li
 }
 
 func sameTargets(a, b map[string][]*target.Target) bool {
@@ -200,9 +208,9 @@ func runStore(a Args) *Result {
 			li := storeLoad(probe)
 			_ = os.RemoveAll(probe)
 			res.Evaluations++
-			if li.Err != "" || !sameTargets(li.Targets, oldT) || li.Idle != (na == 0) {
+			if li.Err != "" || !sameTargets(li.Targets, oldT) || li.Idle != (na == 0) || (na == 0 && li.IdleUnix != 1700000000) {
 				res.ImplViol = capViol(res.ImplViol, Violation{Property: "C09", Clause: "roundtrip", Signature: "C09/roundtrip",
-					What: "a restart does not resume the acknowledged assignment: " + li.Err, Case: map[string]interface{}{"case": StoreCase{Old: oldT, HadOld: true, Mode: "none"}}}, 3)
+					What: "a restart (one hour later) does not resume the acknowledged assignment and its idle-since time: " + li.Err, Case: map[string]interface{}{"case": StoreCase{Old: oldT, HadOld: true, Mode: "none"}}}, 3)
 			}
 		}
 		reqFile := base + "-req.json"
@@ -218,9 +226,15 @@ func runStore(a Args) *Result {
 		oldBytes, _ := os.ReadFile(filepath.Join(base, "kvass-shard.json"))
 		li := storeLoad(full)
 		res.Evaluations++
-		if li.Err != "" || !sameTargets(li.Targets, newT) {
+		newEmpty := true
+		for _, ts := range newT {
+			if len(ts) > 0 {
+				newEmpty = false
+			}
+		}
+		if li.Err != "" || !sameTargets(li.Targets, newT) || li.Idle != newEmpty || (newEmpty && li.IdleUnix != 1700000000) {
 			res.ImplViol = capViol(res.ImplViol, Violation{Property: "C09", Clause: "roundtrip", Signature: "C09/roundtrip",
-				What: "a restart after an acknowledged update does not resume it: " + li.Err, Case: map[string]interface{}{"case": StoreCase{Old: oldT, New: newT, HadOld: hadOld, Mode: "none"}}}, 3)
+				What: "a restart after an acknowledged update does not resume it (assignment and idle-since time): " + li.Err, Case: map[string]interface{}{"case": StoreCase{Old: oldT, New: newT, HadOld: hadOld, Mode: "none"}}}, 3)
 		}
 		_ = os.RemoveAll(full)
 		L := len(newBytes)
